@@ -238,6 +238,10 @@ def main(argv):
             p = report.write_replay(prop, new, scratch=a.no_evidence)
             print('VIOLATION property=%s replay=%s' % (prop, p))
             return 1
+        if not a.no_evidence:
+            # a replay file describes the violation of the last run: none
+            # after a run that found none
+            report.clear_replay(prop)
         return 0
     except model.AnalysisError as e:
         print('ANALYSIS-ERROR property=%s %s' % (prop, e))
